@@ -491,6 +491,38 @@ func runC11(c *Ctx) {
 			c.obI("R11.3", gate, "payload-through-producer", !pathExists(f, gate, nrs[0], anyFact(noPayload, isReader), isProduce), "a payload that is not a reader is always encoded by the producer chosen for the media type (no Go type of payload bypasses it)", "a path with a non-reader payload reaches http.NewRequest without the producer having run")
 		}
 	}
+	// the body is encoded by the producer registered for the media type the Content-Type header announces (mediaType):
+	// the producer is producers[mediaType], on every path
+	{
+		mt := paramOfType(f, "string")
+		prodMap := paramOfType(f, "map[string]rt.Producer")
+		for _, ci := range allCalls(f) {
+			cc := ci.Common()
+			if ci.Parent() != f || !cc.IsInvoke() || cc.Method.Name() != "Produce" {
+				continue
+			}
+			ok, bad := allOrigins(cc.Value, func(o Origin) bool {
+				lk, isLk := o.V.(*ssa.Lookup)
+				if !isLk {
+					return false
+				}
+				okM, _ := allOrigins(lk.X, oIsValue(prodMap))
+				okK, _ := allOrigins(lk.Index, oIsValue(f.Params[1]))
+				return okM && okK
+			})
+			_ = mt
+			c.obI("R11.3", ci, "producer-of-the-announced-media-type", ok, "the payload is encoded by producers[mediaType], the very type the Content-Type header is set to", "producer origin "+describeOrigin(bad))
+		}
+		// the multipart boundary is the writer's own (random, per request): a fixed boundary can occur in the content
+		for _, fn := range p.LibFuncs("rt/client") {
+			for _, ci := range callsIn(fn, "(*mime/multipart.Writer).SetBoundary") {
+				if ci.Parent() != fn {
+					continue
+				}
+				c.obD("R11.3", ci, "boundary-left-to-the-writer", false, "the client never sets the multipart boundary itself: each body gets the writer's random boundary, which cannot collide with uploaded content", "SetBoundary is called in "+fnName(fn))
+			}
+		}
+	}
 	// a reader payload is sent as the reader stands: buildHTTP never operates on it (no Seek, Read, Reset … before it
 	// becomes the body) — "the exact bytes of a reader payload" are the bytes the reader yields from where it is
 	{
@@ -811,4 +843,51 @@ func errorsIsCall(fn *ssa.Function, ev ssa.Value, global string) bool {
 		}
 	}
 	return false
+}
+
+// globalConstStrings reads a package-level []string (or [N]string) initialised with a literal of constant strings.
+func globalConstStrings(g *ssa.Global) ([]string, bool) {
+	init := g.Pkg.Func("init")
+	if init == nil {
+		return nil, false
+	}
+	var arr ssa.Value
+	for _, in := range instrs(init) {
+		if st, ok := in.(*ssa.Store); ok && st.Addr == ssa.Value(g) {
+			if sl, isSl := st.Val.(*ssa.Slice); isSl {
+				arr = sl.X
+			}
+		}
+	}
+	if arr == nil {
+		// an array global is filled in place
+		if _, isArr := g.Type().Underlying().(*types.Pointer).Elem().Underlying().(*types.Array); isArr {
+			arr = g
+		} else {
+			return nil, false
+		}
+	}
+	var n int64 = -1
+	if pt, ok := arr.Type().Underlying().(*types.Pointer); ok {
+		if at, ok := pt.Elem().Underlying().(*types.Array); ok {
+			n = at.Len()
+		}
+	}
+	var out []string
+	for _, in := range instrs(init) {
+		st, ok := in.(*ssa.Store)
+		if !ok {
+			continue
+		}
+		ia, ok := st.Addr.(*ssa.IndexAddr)
+		if !ok || ia.X != arr {
+			continue
+		}
+		s, isS := constString(st.Val)
+		if !isS {
+			return nil, false
+		}
+		out = append(out, s)
+	}
+	return out, n >= 0 && int64(len(out)) == n
 }
